@@ -2,9 +2,11 @@
 
    The abstract machine is still a sample list and a clock.  A request is open from its start to its end.  The stored
    samples change only at the driver call of a DELETE or of a recorded value change, and then exactly as [delete_spec] /
-   [record_spec] say.  An answer given at the end of an overlapping query must be right for SOME store the query's window
-   saw (each entry of a by-timestamp answer separately); a request that runs alone ([ISeq], or a window in which nothing
-   changed) must be exactly right for the store of that moment. *)
+   [record_spec] say.  An answer given by an overlapping query must be right for SOME store between the earliest start of a
+   mutating request still in flight during the query's window (or the query's own start) and the query's end (each entry
+   of a by-timestamp answer separately): an unanswered DELETE may be linearised after the query even if its removal has
+   physically happened.  A request that runs alone ([ISeq]), or that starts when no mutating request is in flight and sees
+   no change, must be exactly right for the store of that moment. *)
 From QT Require Export C18.Spec C18.Interleave.
 Open Scope Z_scope.
 
@@ -63,7 +65,15 @@ Definition ispec_step (cfg : config) (s : wstate) (e : ievent) (resp : response)
       | ARejected => (s, true)
       | ATick d => ({| ws_store := ws_store s; ws_now := ws_now s + Z.of_N d; ws_open := ws_open s |}, true)
       | a =>
-          let w := {| w_req := a; w_seen := [ws_store s]; w_applied := false |} in
+          (* linearisability: a mutating request that is still in flight (not answered) when this one starts may take
+             effect, for the client, at any moment up to its answer; so this request may be answered from any store seen
+             since the earliest start of a mutating request still in flight — those stores are the windows of the open
+             DELETEs / recorded value changes.  With nothing in flight the window is the current store alone: exact. *)
+          let inherited := flat_map (fun e => match w_req (snd e) with
+                                              | ADelete _ _ _ | ARecord _ _ => w_seen (snd e)
+                                              | _ => []
+                                              end) (ws_open s) in
+          let w := {| w_req := a; w_seen := ws_store s :: inherited; w_applied := false |} in
           match resp with
           | RNone => ({| ws_store := ws_store s; ws_now := ws_now s; ws_open := (id, w) :: win_drop (ws_open s) id |}, true)
           | _ => (s, answer_ok w resp)       (* answered without suspending *)
